@@ -329,12 +329,12 @@ func (pp *Prepass) instrWrites(fn *ssa.Function, ins ssa.Instruction, ws KeySet)
 		pp.addrKeys(x.Addr, ws)
 	case *ssa.MapUpdate:
 		mt := x.Map.Type().Underlying().(*types.Map)
-		ws[MapDomKey(tm.SortOf(mt.Key()))] = true
-		ws[MapValKey(tm.SortOf(mt.Key()), tm.SortOf(mt.Elem()))] = true
+		ws[MapDomKey(tm.SortOf(mt.Key()), mt)] = true
+		ws[MapValKey(tm.SortOf(mt.Key()), tm.SortOf(mt.Elem()), mt)] = true
 		ws[MapCardKey] = true
 	case *ssa.MakeMap:
 		mt := x.Type().Underlying().(*types.Map)
-		ws[MapDomKey(tm.SortOf(mt.Key()))] = true
+		ws[MapDomKey(tm.SortOf(mt.Key()), mt)] = true
 		ws[MapCardKey] = true
 	case *ssa.MakeSlice:
 		ws[ElemKey(tm.SortOf(x.Type().Underlying().(*types.Slice).Elem()))] = true
@@ -360,12 +360,12 @@ func (pp *Prepass) instrWrites(fn *ssa.Function, ins ssa.Instruction, ws KeySet)
 				}
 			case "delete":
 				mt := cc.Args[0].Type().Underlying().(*types.Map)
-				ws[MapDomKey(tm.SortOf(mt.Key()))] = true
+				ws[MapDomKey(tm.SortOf(mt.Key()), mt)] = true
 				ws[MapCardKey] = true
 			case "clear":
 				switch t := cc.Args[0].Type().Underlying().(type) {
 				case *types.Map:
-					ws[MapDomKey(tm.SortOf(t.Key()))] = true
+					ws[MapDomKey(tm.SortOf(t.Key()), t)] = true
 					ws[MapCardKey] = true
 				case *types.Slice:
 					ws[ElemKey(tm.SortOf(t.Elem()))] = true
